@@ -59,6 +59,14 @@ pub struct Plain {
     ident: u64,
 }
 
+/// an aggregate embedded in a parent unit-of-work entry (closed together with it)
+#[metrics]
+pub struct ParentE {
+    request: u64,
+    #[metrics(flatten)]
+    calls: Aggregate<Plain>,
+}
+
 /// second keying of the same source (tee branch): by parity of the weight
 pub struct ByParity;
 
@@ -321,6 +329,7 @@ enum Target {
     Worker(SimMutex<Option<WorkerSink<CallEntry, Logged<KeyedAggregator<Call, CaptureSink>>>>>),
     WorkerTee(SimMutex<Option<WorkerSink<CallEntry, Logged<TeeSink<KeyedAggregator<Call, CaptureSink>, TeeSink<KeyedAggregator<ByParity, CaptureSink>, metrique_aggregation::sink::NonAggregatedSink<CaptureSink>>>>>>>),
     MutexPlain(SimMutex<Option<MutexSink<Logged<Aggregate<Plain>>>>>),
+    Embedded(SimMutex<Option<ParentE>>),
 }
 
 struct ARun {
@@ -376,6 +385,17 @@ fn a_send(r: &ARun, id: u64, unwind: bool) {
                 drop_guard(g, unwind);
             }
         }
+        Target::Embedded(m) => {
+            if let Some(p) = m.lock().unwrap().as_mut() {
+                r.log.log(AK::Merge { tag: 1, id });
+                let e = Plain { weight: i.weight, last: i.last, ident: i.id };
+                if id % 2 == 0 {
+                    p.calls.insert(e);
+                } else {
+                    p.calls.insert_direct(e.close());
+                }
+            }
+        }
     }
     r.log.log(AK::SendEnd { id });
 }
@@ -405,7 +425,7 @@ fn a_flush(r: &ARun, op: &Value) {
                 flush_worker(r, fid, op, h.flush());
             }
         }
-        Target::MutexPlain(_) => {}
+        Target::MutexPlain(_) | Target::Embedded(_) => {}
     }
 }
 
@@ -462,6 +482,7 @@ fn agg_main(plan: &Value, slot: Arc<Mutex<Option<AggRun>>>, log: ALog) {
         )))),
         "worker_tee" => Target::WorkerTee(SimMutex::new(Some(WorkerSink::new(Logged::new(tee_sink(&log), 1, log.clone()), interval)))),
         "mutex" => Target::MutexPlain(SimMutex::new(Some(MutexSink::new(Logged::new(Aggregate::<Plain>::default(), 1, log.clone()))))),
+        "embedded" => Target::Embedded(SimMutex::new(Some(ParentE { request: 7, calls: Aggregate::default() }))),
         _ => Target::Keyed(SimMutex::new(Logged::new(KeyedAggregator::<Call, CaptureSink>::new(CaptureSink { no: 0, log: log.clone() }), 1, log.clone()))),
     };
     let worker_tid: Option<usize> = detsim::live_threads().into_iter().map(|t| t.0).find(|t| !before.contains(t));
@@ -493,6 +514,15 @@ fn agg_main(plan: &Value, slot: Arc<Mutex<Option<AggRun>>>, log: ALog) {
                 r.log.log(AK::CloseBegin);
                 let closed = h.close();
                 let t = to_test_entry(RootEntry::new(closed));
+                r.log.log(emit_from(0, &t, false));
+                r.log.log(AK::CloseEnd);
+            }
+        }
+        Target::Embedded(m) => {
+            let p = m.lock().unwrap().take();
+            if let Some(p) = p {
+                r.log.log(AK::CloseBegin);
+                let t = to_test_entry(RootEntry::new(p.close()));
                 r.log.log(emit_from(0, &t, false));
                 r.log.log(AK::CloseEnd);
             }
@@ -607,7 +637,7 @@ pub fn check_c10(plan: &Value, run: &AggRun) -> Option<Violation> {
     // which sinks carry aggregates keyed how
     let branches: Vec<(u32, &str)> = match kind {
         "tee" | "worker_tee" => vec![(0, "endpoint"), (1, "odd")],
-        "mutex" => vec![(0, "none")],
+        "mutex" | "embedded" => vec![(0, "none")],
         _ => vec![(0, "endpoint")],
     };
     for (sink, keying) in &branches {
@@ -674,7 +704,7 @@ pub fn check_c10(plan: &Value, run: &AggRun) -> Option<Violation> {
         for (id, inp) in &inputs {
             let Some(ret) = send_ret.get(id) else { continue };
             let must = match kind {
-                "mutex" => close_begin.map(|c| *ret < c).unwrap_or(false),
+                "mutex" | "embedded" => close_begin.map(|c| *ret < c).unwrap_or(false),
                 _ => true,
             };
             if must && !seen.contains_key(id) {
@@ -723,7 +753,7 @@ pub fn check_c10(plan: &Value, run: &AggRun) -> Option<Violation> {
                     }
                 }
                 AK::FlushEnd { tag: 1 } => {
-                    if kind != "mutex" {
+                    if kind != "mutex" && kind != "embedded" {
                         for id in &merged_since {
                             if !emitted_ids.contains(id) {
                                 return Some(Violation::new("flush_left_input_behind", format!("input {id} was merged before a flush but not emitted by it")));
@@ -790,8 +820,8 @@ pub fn check_c10(plan: &Value, run: &AggRun) -> Option<Violation> {
 // ------------------------------------------------------------------------------------------
 
 pub fn gen_c10(rng: &mut Rng, _tier: Tier) -> Value {
-    let kind = *rng.pick(&["keyed", "tee", "worker", "worker", "worker", "worker_tee", "mutex", "mutex"]);
-    let threaded = matches!(kind, "worker" | "worker_tee" | "mutex");
+    let kind = *rng.pick(&["keyed", "tee", "worker", "worker", "worker", "worker_tee", "mutex", "mutex", "embedded"]);
+    let threaded = matches!(kind, "worker" | "worker_tee" | "mutex" | "embedded");
     let nkeys = 1 + rng.below(5);
     let nthreads = if threaded { 1 + rng.below(3) } else { 0 };
     let interval = *rng.pick(&[200_000u64, 5_000_000, 100_000_000, 3_600_000_000_000]);
@@ -813,7 +843,7 @@ pub fn gen_c10(rng: &mut Rng, _tier: Tier) -> Value {
     let mut threads = vec![];
     for _ in 0..nthreads {
         let n = rng.below(9);
-        threads.push(Value::Array(gen_ops(rng, n, kind != "mutex")));
+        threads.push(Value::Array(gen_ops(rng, n, kind != "mutex" && kind != "embedded")));
     }
     // 1.5% of the runs: a cardinality spike (hundreds to thousands of distinct keys between two
     // flushes), which exercises hash-table growth and any size-dependent path
@@ -831,7 +861,7 @@ pub fn gen_c10(rng: &mut Rng, _tier: Tier) -> Value {
         }
         ops
     } else {
-        gen_ops(rng, nmain, kind != "mutex")
+        gen_ops(rng, nmain, kind != "mutex" && kind != "embedded")
     };
     let sched = gen_sched(
         rng,
@@ -846,7 +876,7 @@ pub fn gen_c10(rng: &mut Rng, _tier: Tier) -> Value {
         "main_ops": main_ops,
         "use_guard": rng.chance(0.4),
         "final_flush": true,
-        "close_before_join": kind == "mutex" && rng.chance(0.3),
+        "close_before_join": (kind == "mutex" || kind == "embedded") && rng.chance(0.3),
         "check_timed_flush": rng.chance(0.5) && interval < 1_000_000_000_000,
     })
 }
@@ -928,7 +958,7 @@ impl Scenario for Aggregation {
         r
     }
     fn probes(&self) -> Vec<&'static str> {
-        vec!["cardinality_spike", "kind_keyed", "kind_tee", "kind_worker", "kind_worker_tee", "kind_mutex", "timed_flush_checked", "worker_last_handle_dropped"]
+        vec!["cardinality_spike", "kind_keyed", "kind_tee", "kind_worker", "kind_worker_tee", "kind_mutex", "kind_embedded", "timed_flush_checked", "worker_last_handle_dropped"]
     }
     fn components(&self) -> Value {
         json!({
